@@ -17,7 +17,7 @@ from toolslib import PER_VM, ONE_NODE
 
 PROP = "C20"
 ENGINE = "traverse"
-TARGETS = ["I2N.Props.C20"]          # the driver has no exe entry in the lakefile: it is run as a script
+TARGETS = ["I2N.Props.C20", "drv_tools"]
 PROPS_FILE = "I2N/Props/C20.lean"
 ANCHORS = {"avocado_i2n/intertest_setup.py": [
     "_parse_and_iterate_for_objects_and_workers", "_parse_one_node_for_all_objects_per_worker",
@@ -34,8 +34,7 @@ TRUSTED = ["the Cartesian parser is an oracle of the model: which nodes `parse_c
            "star traversal modelled directly (the shared traversal model has no hook for custom run policies); "
            "`is_occupied` is not modelled there: under the checked well-formedness (a node's name contains the id of "
            "exactly one selected worker) only the owner ever visits a node",
-           "the driver is run by the Lean interpreter (`lake env lean --run Driver/Tools.lean`) unless a compiled "
-           "drv_tools exists"]
+           "the compiled driver drv_tools (falls back to `lake env lean --run Driver/Tools.lean` when it is stale)"]
 
 # -- independent knowledge about the shipped suite (configs/nets.cfg, guest-os.cfg, objects-overwrite.cfg) ---------
 VARIANTS = {"vm1": ["CentOS", "Fedora"], "vm2": ["Win10", "Win7"], "vm3": ["Ubuntu", "Kali"]}
@@ -220,7 +219,7 @@ def judge(ctx, case, obs):
     dedup = [t for i, t in enumerate(chain) if t not in chain[:i]]
     if called != want and len(dedup) < len(chain) and called == [(t, f"0m{i}") for i, t in enumerate(dedup)]:
         bad("chain-repeated-step-dropped", f"chain {chain}: steps called {called} - a step that occurs twice in the "
-            f"chain is executed only once (Params.objects removes duplicates)")
+            f"chain is executed only once")
         chain = dedup
     elif called != want:
         if called == want[:len(called)]:
@@ -484,17 +483,21 @@ def gen_single(rng, tool, small=False):
 
 
 def gen_chain(rng, length, fail_pos, fail_kind):
-    tools = rng.sample(PER_VM + ONE_NODE + ["noop"], length)   # distinct steps (repeated ones: see the finding cases)
+    tools = [rng.choice(PER_VM + ONE_NODE + ["noop"]) for _ in range(length)]   # steps may repeat
     vms, nets = gen_selection(rng, max_vms=2, max_nets=2, allow_multi=False)
     case = {"chain": tools, "vms": vms, "nets": nets, "extra": gen_extra(rng), "sched": gen_sched(rng, nets),
             "fail": None, "via": "manu"}
     if fail_pos is not None:
         if tools[fail_pos] == "noop":
-            tools[fail_pos] = rng.choice([t for t in PER_VM + ONE_NODE if t not in tools])
+            tools[fail_pos] = rng.choice(PER_VM + ONE_NODE)
         if fail_kind == "ambiguous":
             # a real exception of the real tool: a multi-vm step on a vm with several variants
+            # every multi-vm step of the chain raises then; keep exactly one, at the failing position
+            for j, t in enumerate(tools):
+                if t in ONE_NODE and j != fail_pos:
+                    tools[j] = rng.choice(PER_VM)
             if tools[fail_pos] not in ONE_NODE:
-                tools[fail_pos] = rng.choice([t for t in ONE_NODE if t not in tools])
+                tools[fail_pos] = rng.choice(ONE_NODE)
             vm = rng.choice(sorted(vms))
             vms[vm] = ""
             case["nets"] = nets = [n for n in nets if n != "net5"] or ["net1"]
@@ -519,23 +522,24 @@ def gen_cases(rng, thorough):
     if not thorough:
         # make sure first / middle / last positions and all kinds occur in the quick tier
         picked = [(2, 0, "status"), (3, 1, "test-raise"), (3, 2, "start"), (2, 1, "ambiguous"), (4, 0, "start"),
-                  (3, 0, "test-raise"), (4, 3, "status")]
+                  (3, 0, "test-raise"), (4, 3, "status"), (2, 1, "start"), (3, 1, "status"), (4, 2, "test-raise"),
+                  (3, 0, "ambiguous"), (2, 0, "test-raise"), (4, 1, "status"), (3, 2, "ambiguous")]
     for n, p, k in picked:
         for _ in range(3 if thorough else 1):
             cases.append(gen_chain(rng, n, p, k))
-    for n in ((2, 3, 4, 2, 3, 4) * 4 if thorough else (2, 3)):
+    for n in ((2, 3, 4, 2, 3, 4) * 4 if thorough else (2, 3, 4, 2)):
         cases.append(gen_chain(rng, n, None, None))
     # outside the quantifier (model comparison only): unknown step, command line that does not parse
     cases.append({"chain": ["check", "nosuchstep", "boot"], "vms": {"vm1": None}, "nets": ["net1"], "via": "manu"})
     cases.append({"chain": ["check"], "vms": {"vm1": None}, "nets": ["net1"], "via": "manu",
                   "cmdline": ["setup=check", "vms=vm9", "nets=net1"]})
     cases.append({"chain": ["noop", "check"], "vms": {"vm1": None}, "nets": ["net1"], "via": "manu"})
-    # the two other findings, deterministically: a reusing step whose tests fail; a reusing step that raises
+    # regressions of the repaired defects 5f9a82c / 79572ad: a reusing step whose tests fail; a reusing step that raises
     cases.append({"chain": ["create", "check"], "vms": {"vm1": None}, "nets": ["net1"], "via": "manu",
                   "fail": {"kind": "status", "pos": 0, "status": "FAIL"}})
     cases.append({"chain": ["clean", "unset"], "vms": {"vm1": None}, "nets": ["net1"], "via": "manu",
                   "fail": {"kind": "start", "pos": 0}})
-    # chains that repeat a step (README: "adding multiple run steps throughout the setup chain")
+    # regression of 3361dd0: chains that repeat a step (README: "adding multiple run steps throughout the setup chain")
     cases.append({"chain": ["noop", "noop"], "vms": {"vm1": None}, "nets": ["net1"], "via": "manu"})
     if thorough:
         cases.append({"chain": ["check", "boot", "check"], "vms": {"vm1": None}, "nets": ["net1"], "via": "manu"})
